@@ -97,6 +97,19 @@ Midpoint(k, a, b) == LET d == SubW(Widen(k, b), Widen(k, a))   \* exact, W+8 bit
 Conv(kfrom, a, Lto) == IF Lto <= Len(a) THEN Trunc(a, Lto)
                        ELSE IF kfrom = "i" THEN SExt(a, Lto) ELSE ZExt(a, Lto)
 
+(* ---------------------------- C16 ------------------------------------- *)
+\* mixed-signedness comparisons cmp_equal / cmp_less / ... compare the
+\* mathematical integer values of a (kind ka) and b (kind kb), equal widths
+MathCmp(ka, a, kb, b) ==
+  IF IsNeg(ka, a) THEN (IF IsNeg(kb, b) THEN CmpS(a, b) ELSE -1)
+  ELSE IF IsNeg(kb, b) THEN 1 ELSE CmpU(a, b)
+MixOps == {"cmp_equal", "cmp_not_equal", "cmp_less", "cmp_less_equal", "cmp_greater", "cmp_greater_equal"}
+MixCmpOp(o, ka, a, kb, b) ==
+  LET c == MathCmp(ka, a, kb, b) IN
+  CASE o = "cmp_equal" -> c = 0 [] o = "cmp_not_equal" -> c # 0
+    [] o = "cmp_less" -> c < 0 [] o = "cmp_less_equal" -> c <= 0
+    [] o = "cmp_greater" -> c > 0 [] o = "cmp_greater_equal" -> c >= 0
+
 (***************************************************************************)
 (* Operation tables: the same definitions serve the abstract machine       *)
 (* (Avel.tla), the bounded model checks (MC_*.tla) and trace validation.   *)
@@ -168,6 +181,7 @@ IntFactOK(e) ==
                         IntUnDomain(o, k, e.a) => e.r = IntUn(o, k, e.a)
        [] o \in BinOps -> e.r = IntBin(o, k, e.a, e.b)
        [] o \in CmpOps -> e.r = B2I(CmpOp(o, k, e.a, e.b))
+       [] o \in MixOps -> e.r = B2I(MixCmpOp(o, k, e.a, IF e.kbv = <<105>> THEN "i" ELSE "u", e.b))   \* kbv: ASCII of the second kind
        [] o \in ShiftOps -> IntShiftDomain(o, e.a, e.s) => e.r = IntShift(o, k, e.a, e.s)
        [] o = "div"  -> DivDomain(k, e.a, e.b) => DivRel(k, e.a, e.b, e.q, e.r)
        [] o = "has_single_bit" -> e.r = B2I(HasSingleBit(e.a))
